@@ -796,8 +796,11 @@ func (in *Interp) sliceOp(fr *frame, instr *ssa.Slice) Value {
 func (in *Interp) rangeIter(x Value) *Iter {
 	switch x := x.(type) {
 	case Str:
+		if x.Opaque {
+			panic(engineAbort{"range over an opaque string"})
+		}
 		if !x.IsConcrete() {
-			panic(engineAbort{"range over symbolic string"})
+			return &Iter{kind: 0, str: x} // decoded symbolically, see iterNextSymStr
 		}
 		return &Iter{kind: 0, str: Str{S: x.Concrete()}}
 	case *Map:
@@ -811,8 +814,17 @@ func (in *Interp) rangeIter(x Value) *Iter {
 
 func (in *Interp) iterNext(it *Iter, instr *ssa.Next) Value {
 	tb := in.tb
+	if it.kind == 0 && it.str.Opaque {
+		panic(engineAbort{"range over an opaque string"})
+	}
+	if it.kind == 0 && it.str.B != nil && !it.str.IsConcrete() {
+		return in.iterNextSymStr(it)
+	}
 	if it.kind == 0 {
 		s := it.str.S
+		if it.str.B != nil {
+			s = it.str.Concrete()
+		}
 		if it.pos >= len(s) {
 			return Tuple{tb.False, in.mkInt(0), tb.BVConst(32, 0)}
 		}
@@ -841,6 +853,54 @@ func (in *Interp) iterNext(it *Iter, instr *ssa.Next) Value {
 	}
 	tt := instr.Type().(*types.Tuple)
 	return Tuple{tb.False, in.zero(tt.At(1).Type()), in.zero(tt.At(2).Type())}
+}
+
+// iterNextSymStr: one step of `for i, r := range s` over a string with symbolic bytes: UTF-8 decoding
+// as the Go specification defines it (shortest forms only, surrogates and values above U+10FFFF are
+// errors; an invalid byte yields U+FFFD and advances by one), each class test a solver decision.
+func (in *Interp) iterNextSymStr(it *Iter) Value {
+	tb := in.tb
+	bs := it.str.B
+	p := it.pos
+	if p >= len(bs) {
+		return Tuple{tb.False, in.mkInt(0), tb.BVConst(32, 0)}
+	}
+	fr := in.curFrame
+	c8 := func(v uint64) *Term { return tb.BVConst(8, v) }
+	inr := func(b *Term, lo, hi uint64) *Term { return tb.And(tb.Cmp(OUle, c8(lo), b), tb.Cmp(OUle, b, c8(hi))) }
+	z := func(b *Term, mask uint64) *Term { return tb.Zext(tb.Bin(OBand, b, c8(mask)), 32) }
+	shl := func(t *Term, n uint64) *Term { return tb.Bin(OShl, t, tb.BVConst(32, n)) }
+	or := func(a, b *Term) *Term { return tb.Bin(OBor, a, b) }
+	ret := func(r *Term, w int) Value {
+		it.pos = p + w
+		return Tuple{tb.True, in.mkInt(int64(p)), r}
+	}
+	b0 := bs[p]
+	if in.decide(fr, nil, tb.Cmp(OUlt, b0, c8(0x80))) {
+		return ret(tb.Zext(b0, 32), 1)
+	}
+	cont := func(b *Term) *Term { return inr(b, 0x80, 0xbf) }
+	if p+1 < len(bs) {
+		b1 := bs[p+1]
+		if in.decide(fr, nil, tb.And(inr(b0, 0xc2, 0xdf), cont(b1))) {
+			return ret(or(shl(z(b0, 0x1f), 6), z(b1, 0x3f)), 2)
+		}
+		if p+2 < len(bs) {
+			b2 := bs[p+2]
+			second := tb.Ite(tb.Eq(b0, c8(0xe0)), inr(b1, 0xa0, 0xbf), tb.Ite(tb.Eq(b0, c8(0xed)), inr(b1, 0x80, 0x9f), cont(b1)))
+			if in.decide(fr, nil, tb.And(inr(b0, 0xe0, 0xef), tb.And(second, cont(b2)))) {
+				return ret(or(or(shl(z(b0, 0x0f), 12), shl(z(b1, 0x3f), 6)), z(b2, 0x3f)), 3)
+			}
+			if p+3 < len(bs) {
+				b3 := bs[p+3]
+				second4 := tb.Ite(tb.Eq(b0, c8(0xf0)), inr(b1, 0x90, 0xbf), tb.Ite(tb.Eq(b0, c8(0xf4)), inr(b1, 0x80, 0x8f), cont(b1)))
+				if in.decide(fr, nil, tb.And(inr(b0, 0xf0, 0xf4), tb.And(second4, tb.And(cont(b2), cont(b3))))) {
+					return ret(or(or(or(shl(z(b0, 0x07), 18), shl(z(b1, 0x3f), 12)), shl(z(b2, 0x3f), 6)), z(b3, 0x3f)), 4)
+				}
+			}
+		}
+	}
+	return ret(tb.BVConst(32, 0xFFFD), 1)
 }
 
 func (in *Interp) typeAssert(fr *frame, instr *ssa.TypeAssert, itf Iface) Value {
